@@ -22,7 +22,7 @@ NoCase == [ev |-> "none"]
 Init == /\ l = 1 /\ nbad = NoBad /\ c = NoCase /\ api = "" /\ cnt = 0 /\ cause = "" /\ cb = "" /\ cs = ""
         /\ lv = FALSE
         /\ st = [cases |-> 0, runs |-> 0, ops |-> 0, overlong_sites |-> 0, load_unattributed |-> 0,
-                 straddle_cases |-> 0, straddle_overruns |-> 0, straddle_accepted |-> 0]
+                 straddle_cases |-> 0, straddle_overruns |-> 0, straddle_accepted |-> 0, alloc_over |-> 0]
 
 e == Rec[l]
 N == FromNat(c.n)
@@ -124,6 +124,7 @@ End == /\ e.ev = "end"
           IN nbad' = Flag(b2, trunc, Sig("overlong field accepted", "site:" \o c.site.kind), Ctx)
        /\ st' = [st EXCEPT !.load_unattributed =
                    @ + (IF ~Attributed /\ ~LegalOutcome(e.outcome) THEN 1 ELSE 0),
+                          !.alloc_over = @ + (IF BoundedAllocW(e.maxalloc, c.n) THEN 0 ELSE 1),
                           !.straddle_accepted =
                    @ + (IF Straddle /\ DecodeApi /\ e.outcome = "ok" THEN 1 ELSE 0)]
 
@@ -135,5 +136,5 @@ Report == l = NRec + 1 =>
             /\ Stat("overlong_sites", st.overlong_sites)
             /\ Stat("load_unattributed", st.load_unattributed)
             /\ Stat("straddle_cases", st.straddle_cases) /\ Stat("straddle_overruns", st.straddle_overruns)
-            /\ Stat("straddle_accepted", st.straddle_accepted)
+            /\ Stat("straddle_accepted", st.straddle_accepted) /\ Stat("alloc_over", st.alloc_over)
 =============================================================================
